@@ -19,9 +19,9 @@ MCSpec == MCInit /\ [][MCNext]_mcvars
 Emit == (EmitOn /\ Complete /\ Len(hist) > 0) => PrintT(<<"REPLAY", ToJson([steps |-> hist])>>)
 \* stop extending complete behaviours
 Bound == ~(RefCnt(inst) = 0 /\ steps > 0) \/ TRUE
-AllOps == {"pinlend", "clone", "delegate", "lend", "move", "hit", "err", "make_ref", "make_mut", "drop", "verify", "report", "noverify", "unwind"}
+AllOps == {"pinlend", "pinlendclone", "clone", "delegate", "lend", "move", "hit", "err", "make_ref", "make_mut", "drop", "verify", "report", "noverify", "unwind"}
 C09Ops == AllOps \ {"unwind", "make_ref", "make_mut"}
 C11Ops == {"clone", "delegate", "lend", "move", "hit", "err", "noverify", "unwind", "drop"}
-C13Ops == {"pinlend", "clone", "delegate", "lend", "make_ref", "make_mut", "drop", "verify", "hit"}
+C13Ops == {"pinlend", "pinlendclone", "clone", "delegate", "lend", "make_ref", "make_mut", "drop", "verify", "hit"}
 T2 == {0, 1}
 =============================================================================
